@@ -207,6 +207,9 @@ def run(tier: str, seed: int) -> int:
                 if quick:
                     maximal = [k for k in keys if len(k) == 3]
                     step = 8
+                else:
+                    step = max(1, len(maximal) // 25000)          # 4-step behaviours: an even sample of <= 25000 per layout (all of them take hours)
+                    chk.notes.setdefault("thorough_behaviours_total", []).append(len(maximal))
                 # expected abstract state after each prefix = the dumped state with that history
                 for idx in range(0, len(maximal), step):
                     k = maximal[(idx * 7919) % len(maximal)] if quick else maximal[idx]
@@ -251,7 +254,7 @@ def run(tier: str, seed: int) -> int:
     if bad and len(chk.violations) == before:
         raise MachineryError("ActiveGeom: invariant violated in the model but every behaviour replays correctly: the model mis-describes the mechanism\n"
                              + bad[0].out[bad[0].out.index("Error:"):][:1200])
-    chk.exhaustive = not quick
+    chk.exhaustive = False       # the model is explored exhaustively; the replay takes an even sample of its behaviours in both tiers
     return chk.finish()
 
 
